@@ -738,6 +738,32 @@ def run(rep):
         if bad:
             rep.violation('oracle/%s/elementwise' % fn, '%s does not act element-wise: %s' % (fn, bad),
                           dict(fn=fn, extra=str(extra), shape=list(shape), zs=[[z.real, z.imag] for z in zs]), found_input=True)
+        elif i % 3 == 0:
+            # the SAME array object refilled in place (and the first result scribbled on): the second call must see
+            # the new contents
+            zs2 = [gen_z(rng, fn, extra) for _ in range(n)]
+            if isinstance(whole, np.ndarray):
+                try:
+                    whole *= 0
+                except Exception:
+                    pass
+            arr[...] = np.array(zs2, dtype=complex).reshape(shape)
+            with warnings.catch_warnings():
+                warnings.simplefilter('ignore')
+                again = f(arr) if extra is None else f(arr, extra)
+            rep.case('oracle.elementwise.refilled', (fn, extra, tuple(zs2)))
+            flat = np.asarray(again).ravel()
+            for z, v in zip(zs2, flat if np.shape(again) == tuple(shape) else []):
+                s1 = real_call(sp, np, fn, extra, z)
+                if isinstance(s1, str) or not cerr(complex(v), s1[0], scale_for(sp, np, fn, extra, z, strict=True)) <= TOL_ELEM:
+                    bad = 'after refilling the same array in place, element at z=%r is %r in the array call, %r alone' % (z, complex(v), s1)
+                    break
+            if np.shape(again) != tuple(shape):
+                bad = 'result shape %r for argument shape %r (second call)' % (np.shape(again), shape)
+            if bad:
+                rep.violation('oracle/%s/elementwise-refilled' % fn, '%s does not act element-wise: %s' % (fn, bad),
+                              dict(fn=fn, extra=str(extra), shape=list(shape), first=[[z.real, z.imag] for z in zs],
+                                   second=[[z.real, z.imag] for z in zs2]), found_input=True)
 
     timing['oracle.elementwise'] = round(time.time() - t0, 1)
     rep.coverage['timing_s'] = timing
